@@ -13,6 +13,7 @@ def run_scenarios(ctx, prop, n, steps=60, profile="mixed", scenario_cls=Scenario
         ctx.ties_broken.append("harness:h_client does not compile: " + hlog[-800:]); return []
     fails = []
     stat = {}; nontriv = set(); total_lines = 0
+    for_trace = []
     base = ctx.seed * 1000003
     for k in range(n):
         seed = base + k if seeds is None else seeds[k]
@@ -21,6 +22,7 @@ def run_scenarios(ctx, prop, n, steps=60, profile="mixed", scenario_cls=Scenario
         h.close()
         total_lines += len(s.tr)
         if on_scenario: on_scenario(seed, s)
+        if not s.crashed: for_trace.append((seed, s))
         for kk, vv in s.stat.items(): stat[kk] = stat.get(kk, 0) + vv
         if s.stat.get("drop", 0) + s.stat.get("connect", 0) >= 2 and len(s.ops) > 3: nontriv.add(tuple(l for l, _, _, _ in s.tr))
         v = M.View(s)
@@ -50,6 +52,10 @@ def run_scenarios(ctx, prop, n, steps=60, profile="mixed", scenario_cls=Scenario
     ctx.cov["script_lines"] = ctx.cov.get("script_lines", 0) + total_lines
     ctx.cov["distinct_nontrivial"] = ctx.cov.get("distinct_nontrivial", 0) + len(nontriv)
     for kk, vv in stat.items(): ctx.count("client:" + kk, vv)
+    # the composed model must accept every transcript (tie of the end-to-end theorems in Props/C01,C03,C05,C07,C08,C14)
+    import trace_check
+    if isinstance(prop, str) and prop in trace_check.TRACE_PROPS:
+        trace_check.check(ctx, prop, for_trace)
     return fails
 
 
